@@ -124,6 +124,9 @@ Incremental == rd.out = ReadCells(toks, SST)
 \* XlsbCellsReader::new stops right behind BrtBeginSheetData whatever optional parts precede it
 PreambleOK == NewPos(PreIds(pre)) = Len(PreIds(pre)) + 1
 
+\* the bounding rectangle only grows: prune tables that can never be completed within MaxArea
+AreaConstraint == AreaWithin(Ideal(toks, SST), MaxArea)
+
 Refines == done => AsIs(toks, SST) = Ideal(toks, SST)
 
 Dump == done => PrintT(<<"REPLAY", ToJson([pre |-> pre, tokens |-> toks, sst |-> SST,
